@@ -126,6 +126,14 @@ Proof.
   apply latest_at_or_below; assumption.
 Qed.
 
+(* the specification's range IS the database scan of the staged map: for every limit, direction and bounds *)
+Theorem C12_spec_range_is_db_scan : forall m pfx s e limit reverse, sorted m ->
+  spec_range m pfx s e limit reverse = map (strip (length pfx)) (iterate_range m (pfx ++ s) (pfx ++ e) limit reverse).
+Proof.
+  intros m pfx s e limit reverse Hs. rewrite iterate_range_exact by auto. unfold spec_range, range_spec, take_limit, eff_limit.
+  destruct (limit >? -1)%Z; auto. apply firstn_map.
+Qed.
+
 (* after Commit: writing the batch leaves every read unchanged, but Commit does not (and, because of dry-run commits,
    must not) reset the cache, so using the same Database further after the batch was WRITTEN is outside the refinement
    (known finding c12:ops2:spec:after-commit): witness of a staged delete lost after a written Commit *)
